@@ -1,4 +1,4 @@
-CONSTANT Families = {"eval", "order", "rep", "full", "opt"}
+CONSTANT Families = {"eval", "order", "rep", "full", "intx", "opt"}
 CONSTANT BkMax = 4
 CONSTANT Nords = {1, 2, 3, 4, 5, 6}
 CONSTANT SpreadSel = "none"
@@ -6,7 +6,10 @@ CONSTANT RepLen = 4
 CONSTANT OrderLen = 3
 CONSTANT FullNords = {2, 3}
 CONSTANT FullExtra = {0, 1}
-CONSTANT Ns = {2, 3, 5, 8, 12}
+CONSTANT IntxMax = 3
+CONSTANT FormAllNs = {}
+CONSTANT Ns = {1, 2, 3, 5, 8, 12}
+CONSTANT OptNords = {1, 2, 4, 6}
 CONSTANT AgreeNords = {1, 2, 3, 4}
 INIT Init
 NEXT Next
@@ -20,4 +23,6 @@ INVARIANT C08_DefinitionsAgree
 INVARIANT C08_Continuity
 INVARIANT C08_ProcedureEqualsDefinition
 INVARIANT C08_MaskExactlyOutside
+INVARIANT C08_FormsRepresent
+INVARIANT C08_FormIndependent
 CHECK_DEADLOCK FALSE
